@@ -124,6 +124,7 @@ def run(ctx):
     R.rule("C24-R3", "deterministic dump: ordered object map, hash computed from the dump", floor=2)
     R.rule("C24-R5", "a number's printed text follows its value: every value-changing assignment of primitive resets the remembered literal text", floor=11)
     R.rule("C24-R6", "floating-point numbers are written with enough digits to be read back exactly (max_digits10)", floor=2)
+    R.rule("C24-R7", "the reader accepts every object key the writer can emit: no size condition on a quoted key", floor=1)
     R.rule("C24-R4", "object keys are decoded with the string decoder", floor=1)
 
     # locate the escaper: a function in json.cpp with an escaping switch
@@ -321,6 +322,23 @@ def run(ctx):
         R.ob("C24-R6", ok, "occa::toString<%s>" % T_, "%s significant digits written, %d needed" % (digits, need), f.site(sp[0]) if sp else f.relfile,
              "every %s is read back as the same value" % T_ if ok else
              "a %s needs %d significant digits to round-trip; with %s some neighbouring values share one text: parse(dump(v)) != v and distinct values get the same hash" % (T_, need, digits))
+
+    # ---- R7 ------------------------------------------------------------------------------------------------------------------------------
+    lof = prog.fn(J + "loadObjectField")
+    lcfg = lof.cfg
+    quoted = [c for c in lof.walk() if is_call(c) and callee(c) == J + "loadString"]
+    if len(quoted) != 1:
+        raise AnalysisBroken("loadObjectField: the quoted-key branch was not found")
+    sizetests = [n for n in lof.walk() if is_call(n) and callee(n).split("::")[-1] in ("size", "empty", "length") and "std::basic_string" in callee(n) and
+                 any(b_.tk is not None for b_ in [lcfg.blocks[lcfg.position(n)[0]]] if lcfg.position(n))]
+    p = None
+    for t in sizetests:
+        p = lcfg.find_path(lcfg.position(quoted[0]), lambda b, i, e, t=t: e == t["i"], lambda b, i, e: False)
+        if p is not None:
+            break
+    R.ob("C24-R7", p is None, lof.q, "a quoted key is not tested for its size", lof.site(quoted[0]),
+         "only an unquoted key must be non-empty" if p is None else
+         "a key read from a quoted string is rejected when it is empty, but dump() writes an empty key as \"\": parse(dump(j)) throws for j.set(\"\", 1) or a path with an empty segment")
 
 
 META = {
